@@ -65,14 +65,17 @@ def split_ws(b):
     return out
 
 
-def base_table(chars, path):
+def base_table(chars, path, variant=0):
     """A translation table that makes every dictionary character a letter; ASCII letters get
-    an upper-case partner through `base uppercase`; '-' is the hyphen character."""
-    lines = ["space \\s 0", "punctuation - 36", "hyphen - 36", "punctuation , 2", "digit 1 2-3"]
+    an upper-case partner through `base uppercase`; '-' is the hyphen character.
+    variant 1: the hyphen character has another one-character rule in front of its hyphen rule;
+    variant 2: another character (+) with the same cell and a rule of its own, but no hyphen rule."""
+    lines = ["space \\s 0", "punctuation - 36"] + (["always - 36-36"] if variant == 1 else []) + \
+            (["punctuation + 36", "always + 36"] if variant == 2 else ["punctuation + 235"]) + ["hyphen - 36", "punctuation , 2", "digit 1 2-3"]
     k = 0
     seen = set()
     for c in sorted(chars):
-        if c in seen or c <= 32 or c in (ord("-"), ord(","), ord("1")):
+        if c in seen or c <= 32 or c in (ord("-"), ord(","), ord("1"), ord("+")):
             continue
         seen.add(c)
         k += 1
@@ -134,7 +137,7 @@ def words_for(rng, toks, n, alphabet):
             w = [c - 32 if 97 <= c <= 122 and rng.chance(0.5) else c for c in w]
         if rng.chance(0.2) and len(w) > 2:
             k = rng.range(1, len(w) - 1)
-            w[k:k] = rng.choice([[32], [45], [44], [45, 45], [49]])
+            w[k:k] = rng.choice([[32], [45], [45], [44], [45, 45], [49], [43], [43]])
             w = w[:99]
         ws.append(w)
     return ws
@@ -174,9 +177,9 @@ def run(chk):
         chars = set(c for t in toks for c in t if not (48 <= c <= 57) and c != 46)
         chars |= set(range(97, 100))
         bt = work / (name + ".base.utb")
-        base_table(chars, bt)
-        tl = "%s,%s" % (bt, path)
         r = rng.fork(("words", name))
+        base_table(chars, bt, variant=r.choice([0, 1, 2]))
+        tl = "%s,%s" % (bt, path)
         ws = words_for(r, toks, nwords if text is None else 12, sorted(chars))
         # every character the words use, for the table-level functions
         used = sorted(set(c for w in ws for c in w))
